@@ -1,7 +1,7 @@
 (* Totality of the typed decoder (C04): for every declaration environment whose reachable types are
    decodable, [dec] terminates within its fuel, never reaches a Panic site, and every successful
    read consumes at least one byte of its input -- for EVERY input byte string. *)
-From Ctap Require Import Base Schema Wire Utf8 Typed Procs WireP Utf8P StrsP Finite C11P.
+From Ctap Require Import Base Schema Wire Utf8 Typed WellTyped Procs WireP Utf8P StrsP Finite C11P.
 From Coq Require Import Lia ZifyBool.
 Local Open Scope string_scope.
 Local Open Scope Z_scope.
@@ -328,8 +328,6 @@ Proof.
 Qed.
 
 (* ---------------------------------------------------------------- decodable types *)
-Definition w_trunc := "deserialize_from_str_and_truncate".
-Definition w_skip := "deserialize_from_str_and_skip_if_too_long".
 
 Definition with_ok (decodable : ty -> bool) (fd : field) : bool :=
   match f_with fd with
